@@ -163,9 +163,9 @@ func (c *Collection) add(key string, exp Exp, val []byte, isJSON bool) (added bo
 		}
 		revSeqNo++
 		result, err := txn.Exec(
-			`INSERT INTO documents (collection,key,value,cas,exp,isJSON, revSeqNo) VALUES (?1,?2,?3,?4,?5,?6,?7)
+			`INSERT INTO documents (collection,key,value,cas,exp,isJSON, revSeqNo, tombstone) VALUES (?1,?2,?3,?4,?5,?6,?7,(?3 IS NULL))
 				ON CONFLICT(collection,key) DO
-					UPDATE SET value=?3, xattrs=null, cas=?4, exp=?5, isJSON=?6, tombstone=0, revSeqNo=?7
+					UPDATE SET value=?3, xattrs=null, cas=?4, exp=?5, isJSON=?6, tombstone=(?3 IS NULL), revSeqNo=?7
 					WHERE tombstone != 0`,
 			c.id, key, val, newCas, exp, isJSON, revSeqNo)
 		if err != nil {
@@ -186,6 +186,7 @@ func (c *Collection) add(key string, exp Exp, val []byte, isJSON bool) (added bo
 			isJSON:   isJSON,
 			revSeqNo: revSeqNo,
 		}
+		e.isDeletion = (val == nil)              // a row without a body is a tombstone
 		e.xattrs, err = c.getRawXattrs(txn, key) // needed for the DCP event
 		return
 	})
@@ -210,7 +211,7 @@ func (c *Collection) set(key string, exp Exp, opts *sgbucket.UpsertOptions, val 
 		if err != nil {
 			return nil, err
 		}
-		return &event{
+		e := &event{
 			key:      key,
 			value:    val,
 			cas:      newCas,
@@ -218,7 +219,9 @@ func (c *Collection) set(key string, exp Exp, opts *sgbucket.UpsertOptions, val 
 			isJSON:   isJSON,
 			xattrs:   xattrs,
 			revSeqNo: revSeqNo,
-		}, err
+		}
+		e.isDeletion = (val == nil) // a row without a body is a tombstone
+		return e, err
 	})
 }
 
@@ -250,11 +253,11 @@ func (c *Collection) _set(txn *sql.Tx, key string, exp Exp, opts *sgbucket.Upser
 		if opts != nil && opts.PreserveExpiry {
 			exp = oldExp
 		}
-		stmt = `UPDATE documents SET value=?3, xattrs=?4, cas=?5, exp=?6, isJSON=?7, revSeqNo=?8, tombstone=0
+		stmt = `UPDATE documents SET value=?3, xattrs=?4, cas=?5, exp=?6, isJSON=?7, revSeqNo=?8, tombstone=(?3 IS NULL)
 				WHERE collection=?1 AND key=?2`
 	} else {
-		stmt = `INSERT INTO documents (collection,key,value,xattrs,cas,exp,isJSON,revSeqNo)
-				VALUES (?1,?2,?3,?4,?5,?6,?7,?8)`
+		stmt = `INSERT INTO documents (collection,key,value,xattrs,cas,exp,isJSON,revSeqNo,tombstone)
+				VALUES (?1,?2,?3,?4,?5,?6,?7,?8,(?3 IS NULL))`
 	}
 	_, err = txn.Exec(stmt, c.id, key, val, xattrs, newCas, exp, isJSON, revSeqNo)
 	storedExp = exp
@@ -347,9 +350,9 @@ func (c *Collection) WriteCas(key string, exp Exp, cas CAS, val any, opt sgbucke
 				   WHERE collection=?3 AND key=?4 AND cas=?5`
 		} else if (opt&sgbucket.AddOnly) != 0 || cas == 0 {
 			// Insert, but fall back to Update if the doc is a tombstone
-			sql = `INSERT INTO documents (collection, key, value, cas, exp, isJSON,revSeqNo) VALUES(?3,?4,?1,?2,?6,?7,?8)
+			sql = `INSERT INTO documents (collection, key, value, cas, exp, isJSON,revSeqNo,tombstone) VALUES(?3,?4,?1,?2,?6,?7,?8,(?1 IS NULL))
 					ON CONFLICT(collection,key) DO
-						UPDATE SET value=?1, xattrs=null, cas=?2, exp=?6, isJSON=?7, tombstone=0, revSeqNo=?8
+						UPDATE SET value=?1, xattrs=null, cas=?2, exp=?6, isJSON=?7, tombstone=(?1 IS NULL), revSeqNo=?8
 						WHERE tombstone == 1`
 			if !wasTombstone && cas != 0 {
 				sql += ` AND cas=?5`
